@@ -94,6 +94,12 @@ Lemma wp_call {A} (m : M A) (Q0 Q : res A -> G -> state -> Prop) g s :
   wp m Q0 g s -> (forall r g' s', Q0 r g' s' -> Q r g' s') -> wp m Q g s.
 Proof. apply wp_conseq. Qed.
 
+(* a fact about every execution, established separately (e.g. the frames of Proofs/ConsumerFrame.v), may be added *)
+Lemma wp_strengthen {A} (m : M A) (F : res A -> state -> Prop) (Q : res A -> G -> state -> Prop) g s :
+  (forall r s' o, m s = (r, s', o) -> fuel_ok o = true -> F r s') -> wp m Q g s ->
+  wp m (fun r g' s' => Q r g' s' /\ F r s') g s.
+Proof. intros HF H r s' o E F0. destruct (H _ _ _ E F0) as (g' & Hg & Hq). exists g'. repeat split; eauto. Qed.
+
 (* a property of the outputs alone, established separately, may be used to show the monitor does not move *)
 Lemma wp_of_quiet {A} (m : M A) (Q : res A -> G -> state -> Prop) g s :
   (forall r s' o, m s = (r, s', o) -> fuel_ok o = true -> gouts g o = Some g /\ Q r g s') -> wp m Q g s.
@@ -108,6 +114,27 @@ Proof.
   intros Hb fuel. induction fuel as [|f IH].
   - intros k g s _ r s' o E F. cbn in E. unfold bind, emit, raise in E. inversion E; subst. discriminate F.
   - cbn [run]. apply Hb. exact IH.
+Qed.
+
+(* monitors whose state is a function [abs] of the model state: if every step commutes with [abs] (under an invariant
+   of the model state), the monitor accepts every run and ends in the abstraction of the final state *)
+Variable gev : G -> event -> G.
+Variable abs : state -> G.
+Variable Inv : state -> Prop.
+Hypothesis Hstep : forall fuel s e s' o, Inv s -> step fuel s e = (s', o) -> fuel_ok o = true ->
+  gouts (gev (abs s) e) o = Some (abs s') /\ Inv s'.
+Lemma mon_run_abs fuel evs : forall s, Inv s ->
+  forallb (fun t => match t with (_, _, o, _) => fuel_ok o end) (run_steps fuel s evs) = true ->
+  mon_run gev gout (abs s) (obs (run_steps fuel s evs)) = Some (abs (fst (run_events fuel s evs)))
+  /\ Inv (fst (run_events fuel s evs)).
+Proof.
+  induction evs as [|e evs IH]; intros s HI HF; cbn [run_steps run_events obs map mon_run fst].
+  - auto.
+  - cbn [run_steps] in HF. destruct (step fuel s e) as [s1 o1] eqn:E. cbn [forallb] in HF.
+    apply andb_prop in HF. destruct HF as [F1 F2].
+    destruct (Hstep _ _ _ _ _ HI E F1) as [Hg HI1]. cbn [map mon_run]. rewrite Hg.
+    destruct (IH s1 HI1 F2) as [IH1 IH2]. unfold obs in IH1. rewrite IH1.
+    destruct (run_events fuel s1 evs) as [s2 o2] eqn:E2. cbn [fst] in *. auto.
 Qed.
 End Wp.
 
